@@ -944,6 +944,28 @@ pub fn scenarios(prop: &str, tier: &str) -> Vec<Scenario> {
             }
             v.push(s);
         }
+        "C06" => {
+            // scoped followers (from start, tail, last-id) with writers in both contexts
+            let mut s = base("ctx-begin-2w1");
+            s.contexts = 2;
+            s.pre = vec![fs("a", 1, ""), fs("a", 2, ""), fs("a", 0, "")];
+            s.writers = vec![vec![fs("a", 1, "")], vec![fs("a", 2, "ephemeral")]];
+            s.readers = vec![rd("on", false, None, None, Some(2))];
+            v.push(s);
+            let mut s = base("ctx-tail-1w3");
+            s.contexts = 2;
+            s.pre = vec![fs("a", 2, "")];
+            s.writers = vec![vec![fs("a", 1, ""), fs("a", 2, ""), fs("a", 0, "ephemeral")]];
+            s.readers = vec![rd("on", true, None, None, Some(2)), rd("on", true, None, None, Some(0))];
+            v.push(s);
+            let mut s = base("ctx-lastid-limit");
+            s.contexts = 2;
+            s.pre = vec![fs("a", 2, ""), fs("a", 1, ""), fs("a", 2, "")];
+            s.writers = vec![vec![fs("a", 1, ""), fs("a", 2, "")]];
+            s.readers = vec![rd("on", false, Some(0), Some(2), Some(2))];
+            s.probe = true;
+            v.push(s);
+        }
         _ => panic!("no E2 scenarios for {}", prop),
     }
     v
